@@ -286,7 +286,7 @@ def stream_pipeline(chk, prop, plans, corpus_maxtok):
     accepted_runs = 0
     for pt, ps in split_trace(os.path.join(out, "trace.ndjson"), os.path.join(out, "trace.side.ndjson")):
         before = len(chk.violations)
-        validate_with_retries(chk, "trace_stream", "Trace_Stream.tla", pt, ps, constants={"NestingDomain": 16},
+        validate_with_retries(chk, "trace_stream", "Trace_Stream.tla", pt, ps, constants={"NestingDomain": 16, "Prop": prop},
                               describe=stream_describe, drop_runs=True)
         if len(chk.violations) >= 3:
             break
